@@ -65,6 +65,9 @@ func c02extra(p *Program, r *Report) {
 
 	wholeInputRule(p, r, "C02.whole")
 	shadowedCaseRule(p, r, "C02.whole")
+	if separatorSentinelRule(p, r, "C02.guards") == 0 {
+		r.Unresolved("C02.guards", "the edge recording the separator position in DecodeCashAddress")
+	}
 	da := p.Func("", "DecodeAddress")
 	cash := p.Func("", "checkDecodeCashAddress")
 	if da == nil || cash == nil {
@@ -683,6 +686,87 @@ func shadowedCaseRule(p *Program, r *Report, rule string) int {
 			reach := reachableFrom(b.Succs[0], nil)
 			r.Add(rule, FnName(fn), fmt.Sprintf("cases %s and %s of one switch may be equal: the second is still tried when the first does not apply", exprString(x), exprString(y)),
 				c1.Pos(), reach[nb], "when both values are equal the first arm takes every input and the second arm is dead (cash and SLP prefixes have the same length on testnet, chipnet and regtest)")
+		}
+	}
+	return n
+}
+
+// separatorSentinelRule (round 7, C02-agent7-m3): the scanner of DecodeCashAddress remembers the separator's position
+// in a counter that is 0 until a separator was seen; the later tests "no prefix" / "second separator" read that
+// counter.  The position may therefore be recorded only where it is known to be at least 1 and the counter is still 0
+// — otherwise a leading ':' leaves the counter at 0 and a second ':' becomes the prefix boundary (":abc:<payload>"
+// decodes with the prefix ":abc").  Decided at every edge on which the loop index flows into a loop-carried counter
+// that starts at 0.
+func separatorSentinelRule(p *Program, r *Report, rule string) int {
+	fn := p.Func("", "DecodeCashAddress")
+	if fn == nil {
+		return 0
+	}
+	lc := NewLinCtx(p, fn)
+	n := 0
+	for _, h := range fn.Blocks {
+		if !isLoopHeader(h) {
+			continue
+		}
+		// the induction variable of the scan: φ(0, φ+1) compared with len(str)
+		var idx *ssa.Phi
+		for _, in := range h.Instrs {
+			ph, ok := in.(*ssa.Phi)
+			if !ok {
+				continue
+			}
+			if fullRangeInduction(ph, func(v ssa.Value) bool { return v == ssa.Value(fn.Params[0]) }) == h {
+				idx = ph
+			}
+		}
+		if idx == nil {
+			continue
+		}
+		for _, in := range h.Instrs {
+			cnt, ok := in.(*ssa.Phi)
+			if !ok || cnt == idx {
+				continue
+			}
+			if _, isInt := intBasic(cnt.Type()); !isInt {
+				continue
+			}
+			init0 := false
+			for i, e := range cnt.Edges {
+				if !h.Dominates(h.Preds[i]) {
+					if k, isK := constInt(e); isK && k == 0 {
+						init0 = true
+					}
+				}
+			}
+			if !init0 {
+				continue
+			}
+			// every edge on which idx flows into cnt (through the φs of the continue / post blocks)
+			seen := map[*ssa.Phi]bool{}
+			var visit func(ph *ssa.Phi)
+			visit = func(ph *ssa.Phi) {
+				if seen[ph] {
+					return
+				}
+				seen[ph] = true
+				for i, e := range ph.Edges {
+					if e == ssa.Value(idx) {
+						n++
+						pred := ph.Block().Preds[i]
+						f := lc.FactsOf(MustCondsAtBlock(fn, pred))
+						f.le = append(f.le, lc.Lin(idx).scale(-1)) // an induction variable counting up from 0 is never negative
+						pos1 := lc.Entails(f, lc.Lin(idx).scale(-1).addConst(1)) // 1 − i ≤ 0
+						first := lc.EntailsEq(f, lc.Lin(cnt))
+						r.Add(rule, FnName(fn), "the separator's position is recorded only where it is ≥ 1 and no separator was recorded before", p.InstrPos(lastInstr(pred)),
+							pos1 && first, fmt.Sprintf("position ≥ 1: %v; counter still 0: %v", pos1, first))
+						continue
+					}
+					if q, isPh := e.(*ssa.Phi); isPh && q != cnt && q != idx {
+						visit(q)
+					}
+				}
+			}
+			visit(cnt)
 		}
 	}
 	return n
